@@ -155,5 +155,23 @@ CHECKS["C16"] = {
     "level_note": "No TLS handshake is performed: GetCertificate is called directly with generated ClientHelloInfo; ACME is never contacted.",
 }
 
+CHECKS["C13"] = {
+    "level": "exploration",
+    "rule": "structured raw HTTP/1.1 requests (9 method tokens incl. custom ones; paths under the service prefix with percent-encoded "
+            "octets in both hex cases, %2F, %25, multi-byte, repeated/trailing slashes, the prefix as a later segment, the prefix itself; "
+            "15 raw queries incl. ';', stray %, '&&', bare '?'; 0-12 headers from a pool with multi-values, odd legal names, OWS, "
+            "client X-Forwarded-*/Forwarded/X-Request-ID/X-Request-Start and hop-by-hop headers; bodies 0-70 kB with Content-Length "
+            "or generated chunking) sent over the in-memory network through Server.buildHandler() to a raw target that records the "
+            "bytes it receives and answers with a generated response (21 statuses, 0-8 headers with multi-values, body 0-70 kB framed "
+            "by Content-Length / chunked / connection close); config: prefix stripping on/off with root and non-root prefixes, header "
+            "forwarding on/off, http/https client side, request/response buffering. Oracle: field-by-field and byte-by-byte equality "
+            "with the stated licences (hop-by-hop removal, Forwarded removal, framing headers, sniffed Content-Type), each counted. "
+            "Non-trivial = an encoded octet or odd query under stripping, or a client forwarding header. Distinct by plan hash.",
+    "layers": [L("TestVF_C13", 1500, 20000)],
+    "technique": "property-based testing (rapid): generated raw requests/responses through the real server stack, round-trip equality oracle at the byte level",
+    "level_text": "Bounded random exploration over a request/response grammar; the real net/http request parser, ReverseProxy and response writer are in the loop.",
+    "level_note": "Domain: RFC 3986 request targets and RFC 9110 field values, prefix spelled literally by the client; go1.26.8 net/http (the project pins 1.24.2).",
+}
+
 ALL_IDS = ["C%02d" % i for i in range(1, 21)]
 NOT_APPLICABLE = {pid: "check not built yet (work in progress; see DESIGN.md section 8 for the order of work)" for pid in ALL_IDS if pid not in CHECKS}
